@@ -120,6 +120,15 @@ BuildFunc(p, r, blk, root) ==
   /\ hist' = Append(hist, Op("build", [p |-> p, r |-> r, blk |-> blk, root |-> root]))
   /\ UNCHANGED <<insigs, i2t, pc, out>>
 
+\* ModuleTypes::find followed by ModuleTypes::add of the same signature: find reports exactly the type that add returns
+\* (an entry type is not a function type anybody added), or nothing when add has to make a new one
+FindAdd(p, r) ==
+  /\ Edit
+  /\ LET x == Insert(St, <<p, r, FALSE>>) IN arena' = x.s.arena /\ dmap' = x.s.dmap
+  /\ clean' = FALSE
+  /\ hist' = Append(hist, Op("findadd", [p |-> p, r |-> r, found |-> Find(St, p, r) >= 0]))
+  /\ UNCHANGED <<insigs, i2t, funcs, pc, out>>
+
 DeleteFunc(f) ==
   /\ Edit /\ f \in DOMAIN funcs /\ funcs[f].live
   /\ funcs' = [funcs EXCEPT ![f].live = FALSE, ![f].root = FALSE]
@@ -174,6 +183,7 @@ Next ==
   \/ EndFuncs
   \/ \E s \in Sigs, root \in BOOLEAN : BuildFunc(s[1], s[2], <<>>, root) \/ \E b \in Sigs : BuildFunc(s[1], s[2], <<b[1], b[2]>>, root)
   \/ \E f \in DOMAIN funcs : DeleteFunc(f) \/ \E b \in BOOLEAN : SetRoot(f, b)
+  \/ \E s \in Sigs : FindAdd(s[1], s[2])
   \/ Gc
   \/ Emit
 Spec == Init /\ [][Next]_tvars
